@@ -48,7 +48,7 @@ var c14Alphabet = []agentOp{
 	{Kind: "start", ID: 0, T: 2},
 	{Kind: "start", ID: 1, T: 3},
 	{Kind: "stop", ID: 0},
-	{Kind: "process", ID: 0},
+	{Kind: "process", ID: 0, H: 1}, // (an indication that carries the id: the class of a message is not the agent's business)
 	{Kind: "collect", T: 5},
 	{Kind: "sethandler", H: 2},
 	{Kind: "close"},
@@ -121,7 +121,7 @@ func c14Exec(p c14Program) (*sched.Result, []lcall) {
 			case "stop":
 				err = a.Stop(id)
 			case "process":
-				err = a.Process(&stun.Message{TransactionID: id})
+				err = a.Process(&stun.Message{TransactionID: id, Type: stun.NewType(stun.MethodBinding, stun.MessageClass(op.H&3))})
 			case "collect":
 				err = a.Collect(agentTime(op.T))
 			case "sethandler":
